@@ -813,4 +813,266 @@ Proof.
   - cbn [snd]. apply ESTEP_asuf. unfold cleanup. apply asuf_cleanup_from.
 Qed.
 
+(** ** children pulled from an upstream: where each of them is placed *)
+Definition ids3 (H : list (N * nat * nat)) : list N := map (fun x => fst (fst x)) H.
+(** multiset inclusion *)
+Definition cle (a b : list N) : Prop := forall x, count_occ N.eq_dec a x <= count_occ N.eq_dec b x.
+
+Lemma cle_nil b : cle [] b. Proof. intros x. simpl. lia. Qed.
+Lemma cle_app a1 b1 a2 b2 : cle a1 b1 -> cle a2 b2 -> cle (a2 ++ a1) (b2 ++ b1).
+Proof. intros H1 H2 x. rewrite !count_occ_app. specialize (H1 x). specialize (H2 x). lia. Qed.
+Lemma ids3_app a b : ids3 (a ++ b) = ids3 a ++ ids3 b. Proof. apply map_app. Qed.
+
+(** the new piece of log, the groups before and after, and the home [H] of every child that
+    arrived in between: every address event and every child held afterwards is about a child that
+    was at that address before, or is at its home *)
+Definition EVH (gs : list fub) (w : world) (gs' : list fub) (w' : world) (H : list (N * nat * nat)) : Prop :=
+  exists l, log w' = l ++ log w
+    /\ (forall c b i, In (c, b, i) (aevs l) -> at_addr gs b i c \/ In (c, b, i) H)
+    /\ (forall b i c, at_addr gs' b i c -> at_addr gs b i c \/ In (c, b, i) H)
+    /\ cle (ids3 H) (acc l).
+
+Lemma EVH_of_EVC gs w gs' w' : EVC gs w w' [] -> sub_new gs gs' [] -> EVH gs w gs' w' [].
+Proof.
+  intros (l & L & E) S. exists l. split; [exact L|]. split; [|split].
+  - intros c b i Hin. destruct (E c b i Hin) as [|[]]; auto.
+  - intros b i c Ha. destruct (S b i c Ha) as [|[]]; auto.
+  - apply cle_nil.
+Qed.
+
+Lemma EVH_trans g1 w1 g2 w2 g3 w3 H1 H2 :
+  EVH g1 w1 g2 w2 H1 -> EVH g2 w2 g3 w3 H2 -> EVH g1 w1 g3 w3 (H2 ++ H1).
+Proof.
+  intros (l1 & L1 & E1 & S1 & C1) (l2 & L2 & E2 & S2 & C2). exists (l2 ++ l1). rewrite L2, L1, app_assoc. split; [reflexivity|]. split; [|split].
+  - intros c b i Hin. rewrite aevs_app in Hin. apply in_app_or in Hin as [Hin|Hin].
+    + destruct (E2 c b i Hin) as [Ha|Hh]; [|right; apply in_or_app; auto].
+      destruct (S1 b i c Ha) as [|Hh]; auto. right; apply in_or_app; auto.
+    + destruct (E1 c b i Hin) as [|Hh]; auto. right; apply in_or_app; auto.
+  - intros b i c Ha. destruct (S2 b i c Ha) as [Ha'|Hh]; [|right; apply in_or_app; auto].
+    destruct (S1 b i c Ha') as [|Hh]; auto. right; apply in_or_app; auto.
+  - rewrite ids3_app, acc_app. apply cle_app; auto.
+Qed.
+
+Lemma EVH_refl gs w : EVH gs w gs w []. Proof. apply EVH_of_EVC; [apply EVC_refl|apply sub_new_refl]. Qed.
+
+Lemma EVH_asuf gs w w' : asuf w w' -> EVH gs w gs w' [].
+Proof. intros A. apply EVH_of_EVC; [apply EVC_asuf; auto|apply sub_new_refl]. Qed.
+
+(** a push places the child in one vacant slot and moves nobody *)
+Lemma push_home f c w f' w' :
+  fub_try_push f c w = (PushOk f', w') ->
+  exists key, forall b i id, at_addr [f'] b i id -> at_addr [f] b i id \/ (id, b, i) = (cid c, blk f, key).
+Proof.
+  unfold fub_try_push. destruct (sm_insert (tasks f) c) as [key m| |] eqn:Hi; try discriminate.
+  intros E; inversion E; subst; clear E. exists key. intros b i id (g & [<-|[]] & Hb & Hc). simpl in *.
+  rewrite (@sm_get_insert (tasks f) c key m i Hi) in Hc. destruct (Nat.eqb_spec key i) as [<-|Hne].
+  - right. simpl in Hc. inversion Hc; subst. reflexivity.
+  - left. exists f. splits; auto. left; auto.
+Qed.
+
+(** one pull: the upstream hands over a child, the queue takes it *)
+Lemma evh_pull_fub f c w0 w f' w' :
+  log w = EUpPoll (UAItem (cid c)) :: log w0 -> fub_try_push f c w = (PushOk f', w') ->
+  exists b i, EVH [f] w0 [f'] w' [(cid c, b, i)].
+Proof.
+  intros L0 Hp. destruct (push_home f c w f' w' Hp) as (key & Hk). pose proof (asuf_fub_try_push f c w) as Ha.
+  rewrite Hp in Ha. cbn [snd] in Ha. destruct Ha as (l & L & A).
+  exists (blk f), key. exists (l ++ [EUpPoll (UAItem (cid c))]). rewrite L, L0, <- app_assoc. split; [reflexivity|]. split; [|split].
+  - intros c0 b i Hin. rewrite aevs_app, A in Hin. simpl in Hin. contradiction.
+  - intros b i c0 Hat. destruct (Hk b i c0 Hat) as [|E]; auto. right. left. inversion E; subst; auto.
+  - intros x. rewrite acc_app. simpl. rewrite count_occ_app. simpl.
+    destruct (N.eq_dec (cid c) x); lia.
+Qed.
+
+Lemma asuf_from_cons e w0 w w' : log w = e :: log w0 -> aq_ev e = true -> asuf w w' -> asuf w0 w'.
+Proof.
+  intros L Q (l & L' & A). exists (l ++ [e]). rewrite L', L, <- app_assoc. split; auto.
+  rewrite aevs_app, A. simpl. destruct e; simpl in *; auto; try discriminate.
+  match goal with a : option addr |- _ => destruct a; simpl in *; auto; discriminate end.
+Qed.
+
+Lemma evh_pull_q q c w0 w :
+  log w = EUpPoll (UAItem (cid c)) :: log w0 ->
+  exists H, EVH (qg q) w0 (qg (fst (q_push P q c w))) (snd (q_push P q c w)) H.
+Proof.
+  intros L0. pose proof (asuf_q_push q c w) as Ha.
+  assert (Hfail : forall w', asuf w w' -> exists H, EVH (qg q) w0 (qg q) w' H).
+  { intros w' A. exists []. apply EVH_asuf. eapply asuf_from_cons; eauto. }
+  destruct q as [f|o]; simpl in *.
+  - destruct (fub_try_push f c w) as [[f'| |] w1] eqn:E; cbn [fst snd] in *; try (apply Hfail; exact Ha).
+    destruct (evh_pull_fub f c w0 w f' w1 L0 E) as (b & i & Hh). eexists; exact Hh.
+  - unfold fob_try_push in *.
+    destruct (fub_try_push (fo_inner o) (child_set_idx c (nin (fo_ord o))) w) as [[f'| |] w1] eqn:E; cbn [fst snd] in *;
+      try (apply Hfail; exact Ha).
+    destruct (evh_pull_fub (fo_inner o) (child_set_idx c (nin (fo_ord o))) w0 w f' w1 L0 E) as (b & i & Hh).
+    eexists; exact Hh.
+Qed.
+
+Lemma fill_evh n a t w :
+  exists H, EVH (qg (ad_q a)) w (qg (ad_q (fst (fst (fill P n a t w))))) (snd (fill P n a t w)) H.
+Proof.
+  revert a w. induction n as [|n IH]; intros a w; cbn [fill]; cbn [fst snd].
+  - exists []. apply EVH_asuf. asq.
+  - destruct (Nat.ltb (q_len (ad_q a)) (q_cap (ad_q a))); [|exists []; apply EVH_refl].
+    destruct (ad_up a) as [u|]; [|exists []; apply EVH_refl].
+    pose proof (up_poll_bal (ad_try a) u t w) as Hu. pose proof (asuf_up_poll (ad_try a) u t w) as Ha.
+    destruct (up_poll (ad_try a) u t w) as [[u' r] w1]. cbn [fst snd] in Hu, Ha.
+    destruct r as [c| | |e]; cbn [fst snd ad_q].
+    + destruct (evh_pull_q (ad_q a) c w w1 Hu) as (H1 & E1).
+      destruct (q_push P (ad_q a) c w1) as [q' w2]. cbn [fst snd] in *.
+      destruct (IH {| ad_try := ad_try a; ad_up := Some u'; ad_q := q' |} w2) as (H2 & E2). cbn [ad_q] in E2.
+      exists (H2 ++ H1). eapply EVH_trans; eauto.
+    + exists []. apply EVH_asuf; auto.
+    + exists []. apply EVH_asuf. eapply asuf_trans; [exact Ha|asq].
+    + exists []. apply EVH_asuf; auto.
+Qed.
+
+Lemma adapter_poll_evh a t w :
+  exists H, EVH (qg (ad_q a)) w (qg (ad_q (fst (fst (adapter_poll P a t w))))) (snd (adapter_poll P a t w)) H.
+Proof.
+  unfold adapter_poll. destruct (fill_evh (S (q_cap (ad_q a))) a t w) as (H1 & E1).
+  destruct (fill P (S (q_cap (ad_q a))) a t w) as [[a1 e] w1]. cbn [fst snd] in *.
+  destruct e as [tk|]; cbn [fst snd]; [exists H1; auto|].
+  pose proof (q_poll_addr P (ad_kind a1) (ad_q a1) t w1) as Hq.
+  pose proof (evc_q_poll (ad_kind a1) (ad_q a1) t w1) as He.
+  destruct (q_poll P (ad_kind a1) (ad_q a1) t w1) as [[q sp] w2]. cbn [fst snd] in *.
+  assert (H : EVH (qg (ad_q a)) w (qg q) w2 ([] ++ H1)) by (eapply EVH_trans; [exact E1|apply EVH_of_EVC; auto]).
+  simpl in H. exists H1. destruct sp; cbn [fst snd ad_q]; auto. destruct (ad_up a1); cbn [fst snd ad_q]; auto.
+Qed.
+
+Lemma fec_loop_evh n a t w :
+  exists H, EVH [fe_q a] w [fe_q (fst (fst (fec_loop P n a t w)))] (snd (fec_loop P n a t w)) H.
+Proof.
+  revert a w. induction n as [|n IH]; intros a w; cbn [fec_loop]; cbn [fst snd].
+  - exists []. apply EVH_asuf. asq.
+  - assert (Hpull : let r := (if Nat.ltb (fub_len (fe_q a)) (fub_cap (fe_q a)) then
+                       match fe_up a with
+                       | Some u =>
+                           let '(u, r, w) := up_poll false u t w in
+                           match r with
+                           | UPItem c =>
+                               match fub_try_push (fe_q a) c w with
+                               | (PushOk f, w) => ({| fe_up := Some u; fe_q := f |}, true, w)
+                               | (_, w) => ({| fe_up := Some u; fe_q := fe_q a |}, true, emit EStuck w)
+                               end
+                           | UPEnd => ({| fe_up := None; fe_q := fe_q a |}, false, emit EUpDrop w)
+                           | _ => ({| fe_up := Some u; fe_q := fe_q a |}, false, w)
+                           end
+                       | None => (a, false, w)
+                       end
+                     else (a, false, w)) in
+                    exists H, EVH [fe_q a] w [fe_q (fst (fst r))] (snd r) H).
+    { cbv zeta. destruct (Nat.ltb (fub_len (fe_q a)) (fub_cap (fe_q a))); [|exists []; apply EVH_refl].
+      destruct (fe_up a) as [u|]; [|exists []; apply EVH_refl].
+      pose proof (up_poll_bal false u t w) as Hu. pose proof (asuf_up_poll false u t w) as Ha.
+      destruct (up_poll false u t w) as [[u' r] w1]. cbn [fst snd] in Hu, Ha.
+      destruct r as [c| | |e]; cbn [fst snd fe_q].
+      - pose proof (asuf_fub_try_push (fe_q a) c w1) as Hpa.
+        destruct (fub_try_push (fe_q a) c w1) as [[f| |] w2] eqn:E; cbn [fst snd fe_q] in *.
+        + destruct (evh_pull_fub (fe_q a) c w w1 f w2 Hu E) as (b & i & Hh). eexists; exact Hh.
+        + exists []. apply EVH_asuf. eapply asuf_trans; [exact Ha|]. eapply asuf_trans; [exact Hpa|asq].
+        + exists []. apply EVH_asuf. eapply asuf_trans; [exact Ha|]. eapply asuf_trans; [exact Hpa|asq].
+      - exists []. apply EVH_asuf; auto.
+      - exists []. apply EVH_asuf. eapply asuf_trans; [exact Ha|asq].
+      - exists []. apply EVH_asuf; auto. }
+    cbv zeta in Hpull.
+    destruct (if Nat.ltb (fub_len (fe_q a)) (fub_cap (fe_q a)) then _ else _) as [[a1 pulled] w1].
+    destruct Hpull as (H1 & E1). cbn [fst snd] in *.
+    pose proof (fub_poll_next_addr P KFut (fe_q a1) t w1) as Hp.
+    pose proof (evc_fub_poll_next KFut (fe_q a1) t w1) as He.
+    destruct (fub_poll_next P KFut (fe_q a1) t w1) as [[f sp] w2]. cbn [fst snd] in *. destruct Hp as [Hpb Hps].
+    assert (Hmid : EVH [fe_q a] w [f] w2 ([] ++ H1)).
+    { eapply EVH_trans; [exact E1|]. apply EVH_of_EVC; auto. apply keeps_single; auto. }
+    simpl in Hmid.
+    assert (Hgo : exists H, EVH [fe_q a] w [fe_q (fst (fst (fec_loop P n {| fe_up := fe_up a1; fe_q := f |} t w2)))]
+                              (snd (fec_loop P n {| fe_up := fe_up a1; fe_q := f |} t w2)) H).
+    { destruct (IH {| fe_up := fe_up a1; fe_q := f |} w2) as (H2 & E2). cbn [fe_q] in E2.
+      exists (H2 ++ H1). eapply EVH_trans; eauto. }
+    destruct sp as [| |tk c]; cbn [fst snd fe_q]; auto.
+    + destruct pulled; auto. exists H1; auto.
+    + destruct (fe_up a1); cbn [fst snd fe_q]; [|exists H1; auto]. destruct pulled; auto. exists H1; auto.
+Qed.
+
+(** ** one operation, with the homes of the children it pulled *)
+Definition HSTEP (k : coll) (o : op) (w : world) (k' : coll) (w' : world) : Prop :=
+  exists l H, log w' = l ++ log w
+    /\ (forall c b i, In (c, b, i) (aevs l) -> at_addr (coll_groups k) b i c \/ In (c, b, i) H)
+    /\ (forall b i c, at_addr (coll_groups k') b i c ->
+          at_addr (coll_groups k) b i c \/ In (c, b, i) H \/ In c (taken_op k o k' l) \/ (In c (acc l) /\ ~ In c (ids3 H)))
+    /\ cle (ids3 H) (acc l).
+
+Lemma HSTEP_poll k k' t i w w1 r H :
+  EVH (coll_groups k) w (coll_groups k') w1 H -> HSTEP k (OPoll t i) w k' (emit_ret r w1).
+Proof.
+  intros (l & L & E & S & C). destruct (asuf_emit_ret r w1) as (l2 & L2 & A2).
+  exists (l2 ++ l), H. rewrite L2, L, app_assoc. split; [reflexivity|]. split; [|split].
+  - intros c b j Hin. rewrite aevs_app, A2 in Hin. simpl in Hin. auto.
+  - intros b j c Ha. destruct (S b j c Ha) as [|Hh]; auto.
+  - intros x. rewrite acc_app, count_occ_app. specialize (C x). lia.
+Qed.
+
+(** an operation that logs no address event: what is held afterwards comes from [ASTEP] *)
+Lemma HSTEP_quiet k o w k' w' : asuf w w' -> ASTEP k o w k' w' -> HSTEP k o w k' w'.
+Proof.
+  intros (l & L & A) (l' & L' & S). assert (l' = l) by (rewrite L in L'; apply app_inv_tail in L'; auto). subst l'.
+  exists l, []. split; [exact L|]. split; [|split].
+  - intros c b i Hin. rewrite A in Hin. contradiction.
+  - intros b i c Ha. destruct (S b i c Ha) as [|Hin]; auto. right. right.
+    apply in_app_or in Hin as [Hin|Hin]; [left; exact Hin|right; split; [exact Hin|intros []]].
+  - apply cle_nil.
+Qed.
+
+Lemma do_poll_hstep t i k w : HSTEP k (OPoll t i) w (fst (do_poll P t k w)) (snd (do_poll P t k w)).
+Proof.
+  unfold do_poll.
+  destruct k as [| | |f|f|u|u|q|q|a|a|j]; cbn [fst snd];
+    try (apply HSTEP_quiet; [solve [asq]|apply ASTEP_same; exists []; reflexivity]).
+  - pose proof (evc_fub_poll_next KFut f t w) as He. pose proof (fub_poll_next_addr P KFut f t w) as Ha.
+    destruct (fub_poll_next P KFut f t w) as [[f' sp] w1]. cbn [fst snd] in *. destruct Ha as [A1 A2].
+    apply HSTEP_poll with (H := []). apply EVH_of_EVC; auto. apply keeps_single; auto.
+  - pose proof (evc_mb_poll_loop (S (fub_len f)) f t w) as He. pose proof (mb_poll_loop_addr P (S (fub_len f)) f t w) as Ha.
+    unfold mb_poll_next. destruct (mb_poll_loop P (S (fub_len f)) f t w) as [[f' sp] w1]. cbn [fst snd] in *. destruct Ha as [A1 A2].
+    apply HSTEP_poll with (H := []). apply EVH_of_EVC; auto. apply keeps_single; auto.
+  - pose proof (evc_fu_poll_next false u t w) as He. pose proof (fu_poll_next_addr P false u t w) as Ha.
+    destruct (fu_poll_next P false u t w) as [[u' sp] w1]. cbn [fst snd] in *.
+    apply HSTEP_poll with (H := []). apply EVH_of_EVC; auto.
+  - pose proof (evc_fu_poll_next true u t w) as He. pose proof (fu_poll_next_addr P true u t w) as Ha.
+    destruct (fu_poll_next P true u t w) as [[u' sp] w1]. cbn [fst snd] in *.
+    apply HSTEP_poll with (H := []). apply EVH_of_EVC; auto.
+  - pose proof (evc_fob_poll_next KFut q t w) as He. pose proof (fob_poll_next_addr P KFut q t w) as Ha.
+    destruct (fob_poll_next P KFut q t w) as [[q' sp] w1]. cbn [fst snd] in *.
+    apply HSTEP_poll with (H := []). apply EVH_of_EVC; auto.
+  - pose proof (evc_fo_poll_next q t w) as He. pose proof (fo_poll_next_addr P q t w) as Ha.
+    destruct (fo_poll_next P q t w) as [[q' sp] w1]. cbn [fst snd] in *.
+    apply HSTEP_poll with (H := []). apply EVH_of_EVC; auto.
+  - destruct (adapter_poll_evh a t w) as (H & E).
+    destruct (adapter_poll P a t w) as [[a' r] w1]. cbn [fst snd] in *. apply HSTEP_poll with (H := H). exact E.
+  - destruct (fec_loop_evh (fec_fuel a) a t w) as (H & E). unfold fec_poll.
+    destruct (fec_loop P (fec_fuel a) a t w) as [[a' r] w1]. cbn [fst snd] in *. apply HSTEP_poll with (H := H). exact E.
+  - pose proof (evc_join_loop (S (fub_len (j_q j))) j t w) as He. pose proof (join_loop_addr P (S (fub_len (j_q j))) j t w) as Ha.
+    unfold join_poll. destruct (join_loop P (S (fub_len (j_q j))) j t w) as [[j' r] w1]. cbn [fst snd] in *.
+    apply HSTEP_poll with (H := []). apply EVH_of_EVC; auto.
+Qed.
+
+Lemma step_core_hstep k o w : cinv k w -> HSTEP k o w (fst (step_core P k o w)) (snd (step_core P k o w)).
+Proof.
+  intros Hc. pose proof (@step_core_astep P HP k o w Hc) as Ha. revert Ha.
+  unfold step_core. destruct o as [ty p inits ups|c sc|c sc|c sc|c sc|t i|a| | | | ]; intros Ha.
+  - apply HSTEP_quiet; auto. destruct k; cbn [snd]; try solve [asq]. apply asuf_build.
+  - apply HSTEP_quiet; auto. apply asuf_do_push.
+  - apply HSTEP_quiet; auto. apply asuf_do_push.
+  - apply HSTEP_quiet; auto. apply asuf_do_push.
+  - apply HSTEP_quiet; auto. apply asuf_do_push.
+  - apply do_poll_hstep.
+  - apply HSTEP_quiet; auto. cbn [snd]. apply asuf_do_act.
+  - apply HSTEP_quiet; auto. cbn [snd]. destruct (observe P k); asq.
+  - apply HSTEP_quiet; auto. cbn [snd]. asq.
+  - (* drop: every child is dropped at its address; nothing is held afterwards *)
+    destruct (evc_do_drop k w) as (l & L & E). exists l, []. split; [exact L|]. split; [|split].
+    + intros c b i Hin. destruct (E c b i Hin) as [|[]]; auto.
+    + intros b i c Hat. exfalso. unfold do_drop in Hat. destruct k; cbn [fst coll_groups] in Hat; destruct Hat as (g & [] & _).
+    + apply cle_nil.
+  - apply HSTEP_quiet; auto. cbn [snd]. unfold cleanup. apply asuf_cleanup_from.
+Qed.
+
 End WithParams.
